@@ -55,6 +55,8 @@ func init() {
 			c.ruleSetChangeOrder()
 			c.ruleNoInPlaceFilter()
 			c.min("R-NOINPLACEFILTER", 1)
+			c.rulePrunedAncestry()
+			c.min("R-PRUNEDANCESTRY", 5)
 			c.ruleChangeSearch()
 			c.min("R-CMP/search", 9)
 			c.ruleForcedPrune()
